@@ -430,8 +430,16 @@ def centroid_sweep(rep, r, n):
 def profile_sweep(rep, r, n):
     from photutils.profiles import CurveOfGrowth, RadialProfile
     for k in range(n):
-        ny, nx = r.randint(30, 44), r.randint(30, 44)
+        # clearly non-square frames with the source beyond the short dimension along the long axis (row/column mix-ups show there)
+        short, long_ = r.randint(28, 34), r.randint(48, 60)
+        ny, nx = (short, long_) if k % 2 == 0 else (long_, short)
         img, pos = scene(r, ny, nx, 1, 13, noise=0.3)
+        img0, _ = gens.gaussian_scene(r, ny, nx, nsrc=0, noise=0.3, pad=13)
+        far = r.uniform(short + 1, long_ - 14)
+        x0f, y0f = (far, r.uniform(13, short - 14)) if k % 2 == 0 else (r.uniform(13, short - 14), far)
+        yy_, xx_ = np.mgrid[0:ny, 0:nx]
+        img = img0 + 80.0 * np.exp(-((xx_ - x0f) ** 2 / (2 * 1.7 ** 2) + (yy_ - y0f) ** 2 / (2 * 1.2 ** 2)))
+        pos = [(x0f, y0f)]
         err = np.sqrt(np.abs(img)) + 0.1
         mask = None
         if r.random() < 0.4:
@@ -454,11 +462,19 @@ def profile_sweep(rep, r, n):
                              mask=None if mask is None else embed(mask, NY, NX, dy, dx, False))
                     pX = cls(img.T.copy(), (y0, x0), rr, error=err.T.copy(), mask=None if mask is None else mask.T.copy())
                     res = [(o.profile, o.profile_error, o.area) for o in (p0, pT, pX)]
+                    if cls is RadialProfile:
+                        # the raw (radius, value) pairs of the pixels within the largest radius: same multiset
+                        raw = []
+                        for o in (p0, pT, pX):
+                            dr, dp = np.asarray(val(o.data_radius)), np.asarray(val(o.data_profile))
+                            idx = np.lexsort((np.round(dp, 9), np.round(dr, 9)))
+                            raw.append((dr[idx], dp[idx]))
+                        res = [a + b for a, b in zip(res, raw)]
                 except Exception as e:                              # noqa: BLE001
                     rep.violation(f'{cls.__name__}-raises:{type(e).__name__}', f'{cls.__name__} raised {e!r}', rp)
                     continue
             for tag, other in (('translate', res[1]), ('transpose', res[2])):
-                for nm, a, b in zip(('profile', 'profile_error', 'area'), res[0], other):
+                for nm, a, b in zip(('profile', 'profile_error', 'area', 'data_radius', 'data_profile'), res[0], other):
                     if not close(val(a), val(b), 1e-9):
                         rep.violation(f'{cls.__name__}-{tag}:{nm}', f'{cls.__name__}.{nm} changed under {tag}', rp)
                         break
